@@ -26,11 +26,12 @@ from pgverif.monitors import genoref as G
 
 TIERS = {
     'quick': dict(shards=8, cases=10, dnas=6, handed=3, per_member_sources=14,
-                  chains=3, proposals=7, max_points=10, timeout_s=900,
+                  chains=3, proposals=7, max_points=10, histories=1,
+                  hist_ops=14, hist_parts=4, timeout_s=900,
                   case_timeout_s=300),
     'thorough': dict(shards=16, cases=64, dnas=8, handed=4, per_member_sources=24,
                      chains=5, proposals=10, max_points=18, all_views_per_case=True,
-                     timeout_s=7200,
+                     histories=2, hist_ops=24, hist_parts=5, timeout_s=7200,
                      case_timeout_s=600),
 }
 RULE = ('case = one random search-space description of gen/spaces.random_space '
@@ -187,6 +188,9 @@ def lib_nodes(d, out=None):
 class Space:
   """One built specification with its canonical decision-point objects."""
 
+  prefix = ()             # id path of the spec inside the spec it is a part of
+  level = 'root'
+
   def __init__(self, desc, reuse_rng=None, stats=None):
     self.desc = desc
     # how the spec was constructed (a harness fact, part of the mechanism keys
@@ -238,7 +242,7 @@ class Member:
 
   def __init__(self, sp, flat):
     self.flat = tuple(flat)
-    self.points = G.walk(sp.desc, flat)
+    self.points = G.walk(sp.desc, flat, sp.prefix)
     self.tree = G.tree(sp.desc, flat)
     self.nested = G.nested(self.tree)
     self.node_of = {}
@@ -1053,6 +1057,255 @@ def run_evolution(ctx, sp, case):
 
 
 # --------------------------------------------------------------------------
+# Histories of DNA requests on one long-lived spec object and on its parts.
+# --------------------------------------------------------------------------
+
+class Part(Space):
+  """A part of a built spec used as a spec of its own: the spec itself, an
+  element of a (sub-)space, a sub-choice of a multi-choice, a candidate
+  sub-space. Duck-types `Space` for the monitors: the reference is the
+  description of the part, the decision-point ids carry the `prefix` of the
+  part inside the whole spec and the canonical decision-point objects are
+  those of the whole spec."""
+
+  def __init__(self, sp, obj, desc, prefix, kind, ancestors):   # pylint: disable=super-init-not-called
+    self.desc, self.spec, self.prefix = desc, obj, tuple(prefix)
+    self.construction = sp.construction
+    self.kind = kind
+    self.level = 'root' if kind == 'root' else 'sub-spec'
+    self.ancestors = list(ancestors)     # indices of the enclosing parts
+    self.all_points = G.all_points(desc, self.prefix)
+    self.canon = sp.canon
+    self.int_lits = _has_int_lits(desc)
+    self.finite = G.is_finite(desc)
+    self.name_ids = {}
+    for p in self.all_points:
+      if p.name is not None:
+        ids = self.name_ids.setdefault(p.name, [])
+        if p.parent_id not in ids:
+          ids.append(p.parent_id)
+
+
+def spec_parts(sp):
+  """Every part of a built spec that has a decision of its own, root first;
+  None when the library objects are not where the description puts them (the
+  decision-id monitors report that)."""
+  out = []
+  ok = [True]
+
+  def add(obj, desc, prefix, kind, anc):
+    out.append(Part(sp, obj, desc, prefix, kind, anc))
+    return len(out) - 1
+
+  def in_space(obj, desc, prefix, anc):
+    elements = list(obj.elements)
+    if len(elements) != len(desc['elems']):
+      ok[0] = False
+      return
+    for el, e in zip(elements, desc['elems']):
+      path = prefix + G.loc_tokens(e['loc'])
+      ei = add(el, {'t': 'space', 'elems': [e]}, prefix, 'element', anc)
+      if e['t'] != 'choice':
+        if sp.canon.get(G.render_id(path)) is not el:
+          ok[0] = False
+        continue
+      n, k = len(e['cands']), e['k']
+      for j in range(k):
+        if k == 1:
+          ch, ppath, canc = el, path, anc + [ei]
+        else:
+          ch, ppath = el.subchoice(j), path + (('i', j),)
+          one = dict(e, k=1, distinct=True, sorted=False,
+                     loc=e['loc'] + '[%d]' % j)
+          si = add(ch, {'t': 'space', 'elems': [one]}, prefix, 'subchoice',
+                   anc + [ei])
+          canc = anc + [ei, si]
+        if sp.canon.get(G.render_id(ppath)) is not ch:
+          ok[0] = False
+          return
+        for ci, cd in enumerate(e['cands']):
+          if not cd['elems']:
+            continue
+          cprefix = ppath + (('c', ci, n),)
+          cobj = ch.candidates[ci]
+          cidx = add(cobj, cd, cprefix, 'candidate', canc)
+          in_space(cobj, cd, cprefix, canc + [cidx])
+
+  root = add(sp.spec, sp.desc, (), 'root', [])
+  in_space(sp.spec, sp.desc, (), [root])
+  return out if ok[0] else None
+
+
+HISTORY_OPS = [('first_dna', 4), ('next_dna', 3), ('iter_dna', 2),
+               ('DNA.next_dna', 1), ('DNA.iter_dna', 1), ('random_dna', 2)]
+
+
+def run_history(ctx, sp, case, used_before):
+  """One history of DNA requests on `sp.spec` and on parts of it.
+
+  Requests (first_dna / next_dna / iter_dna / random_dna with attach_spec left
+  out, True or False, next_dna / iter_dna of a DNA) go in random order to the
+  whole spec (which is what iterates the parts internally) and to a few of its
+  parts used as specs of their own. Every DNA handed out is compared with the
+  reference enumeration of the description of that part (first member,
+  successor, membership for random ones) and - unless attach_spec=False was
+  passed, where the binding is left open - with a DNA rebuilt from its raw
+  numbers: node bindings and views (`check_alignment`). The mechanism is the
+  producer, whether the spec is the root or a part, and whether it was asked
+  before with attach_spec=False / after a request to an enclosing spec."""
+  rng = ctx.rng
+  c = ctx.counters
+  parts = guarded(lambda: spec_parts(sp))
+  if parts is None or isinstance(parts, Raised):
+    c['history_skipped_parts_not_found'] += 1
+    return 0
+  chosen = [0]
+  subs = list(range(1, len(parts)))
+  rng.shuffle(subs)
+  # prefer parts with several decision points, keep some single points
+  subs.sort(key=lambda i: len(parts[i].all_points) < 2)
+  chosen += subs[:int(ctx.params.get('hist_parts', 4))]
+  r = pyrandom.Random(rng.randrange(1 << 30))
+  used = {0} if used_before else set()
+  unattached = set()
+  pool = {i: [] for i in chosen}           # (flat, DNA or None) handed out
+  trace = []
+  n_iter = 3
+  checked = 0
+  c['histories'] += 1
+  c['history_parts_available'] += len(parts) - 1
+
+  def start_of(i, need_bound):
+    """(flat, DNA) to continue from: handed out before, or a rebuilt member."""
+    part = parts[i]
+    cands = [x for x in pool[i] if x[1] is not None
+             and (not need_bound or x[2])]
+    if cands and rng.random() < 0.6:
+      flat, d, _ = rng.choice(cands)
+      return flat, d, 'handed-out'
+    flat = G.random_member(part.desc, rng)
+    nested = G.nested(G.tree(part.desc, flat))
+    if need_bound or rng.random() < 0.7:
+      return flat, pg.DNA(nested, spec=part.spec), 'rebuilt'
+    return flat, pg.DNA(nested), 'unbound'
+
+  for _ in range(int(ctx.params.get('hist_ops', 14))):
+    i = rng.choice(chosen) if rng.random() < 0.75 else 0
+    part = parts[i]
+    ops = HISTORY_OPS if part.finite else [('random_dna', 1)]
+    producer = rng.choices([o for o, _ in ops], weights=[w for _, w in ops])[0]
+    by_dna = producer.startswith('DNA.')
+    flag = 'default' if by_dna else rng.choice(
+        ['default', 'default', 'True', 'False'])
+    attach = flag != 'False'
+    kw = {} if flag == 'default' else {'attach_spec': attach}
+    if i in unattached:
+      hist = 'after-unattached-request'
+      c['history_requests_after_unattached'] += 1
+    elif any(a in used for a in part.ancestors):
+      hist = 'after-enclosing-use'
+      c['history_requests_after_enclosing_use'] += 1
+    else:
+      hist = 'plain'
+    route = (f'{producer}[{part.level},{hist}]' if attach
+             else f'{producer}[{part.level},attach_spec=False]')
+    spec = part.spec
+    want = None                      # list of expected members (None = end)
+    if producer == 'first_dna':
+      want = [G.first_member(part.desc)]
+      thunk = lambda: [spec.first_dna(**kw)]
+      what = f'first_dna({flag})'
+    elif producer == 'random_dna':
+      prev = None
+      if rng.random() < 0.2:
+        prev = start_of(i, True)[1]
+      thunk = lambda: [spec.random_dna(r, previous_dna=prev, **kw)]
+      what = f'random_dna({flag}{", previous" if prev is not None else ""})'
+    else:
+      flat, d0, origin = start_of(i, by_dna)
+      it = G.enumerate_from(part.desc, flat)
+      next(it)
+      if producer.endswith('next_dna'):
+        want = [next(it, None)]
+        thunk = ((lambda: [d0.next_dna()]) if by_dna
+                 else (lambda: [spec.next_dna(d0, **kw)]))
+      else:
+        want = list(itertools.islice(it, n_iter))
+        if len(want) < n_iter:
+          want.append(None)
+        thunk = ((lambda: _take(d0.iter_dna(), n_iter)) if by_dna
+                 else (lambda: _take(spec.iter_dna(d0, **kw), n_iter)))
+      what = f'{producer}({origin} {list(flat)!r}, {flag})'
+    trace.append(f'{part.kind} {G.render_id(part.prefix) or "<root>"}: {what}')
+    hcase = dict(case, part=S.show(part.desc), part_kind=part.kind,
+                 history=trace[-10:], spec_used_before=used_before)
+    c['history_requests'] += 1
+    c['history_requests:' + producer] += 1
+    if i:
+      c['history_sub_spec_requests'] += 1
+      c['history_part:' + part.kind] += 1
+    res = guarded(thunk)
+    used.add(i)
+    if not attach:
+      unattached.add(i)
+    if isinstance(res, Raised):
+      ctx.violation('unexpected-exception', route, repr(res), hcase)
+      continue
+    for n, d in enumerate(res):
+      if want is not None and n >= len(want):
+        break
+      exp = want[n] if want is not None else None
+      if d is None or not isinstance(d, pg.DNA):
+        c['history_value_checks'] += 1
+        if d is not None or exp is not None:
+          ctx.violation('handed-out-value', route,
+                        f'{what} on the part {S.show(part.desc)} returned {d!r}, '
+                        f'reference {None if exp is None else list(exp)!r}', hcase)
+        break
+      flat = guarded(lambda d=d: tuple(d.to_numbers()))
+      c['history_value_checks'] += 1
+      if isinstance(flat, Raised):
+        ctx.violation('handed-out-value', route, f'to_numbers raised: {flat!r}', hcase)
+        break
+      if want is None:
+        good = G.why_not(part.desc, flat) is None
+      else:
+        good = exp is not None and flat == tuple(exp) and [
+            type(x) for x in flat] == [type(x) for x in exp]
+      if not good:
+        ctx.violation('handed-out-value', route,
+                      f'{what} on the part {S.show(part.desc)} returned {d!r} '
+                      f'({list(flat)!r}), reference '
+                      + ('a member' if want is None else
+                         repr(None if exp is None else list(exp))), hcase)
+        break
+      checked += 1
+      if attach:
+        status, healed = check_alignment(ctx, part, d, route, hcase)
+        if healed is not None:
+          pool[i].append((flat, healed, True))
+      else:
+        c['history_unattached_checks'] += 1
+        if dna_shape(d) != G.tree(part.desc, flat):
+          ctx.violation('handed-out-shape', route,
+                        f'{d!r} has the decisions {list(flat)!r} of a member whose '
+                        f'documented tree is {G.nested(G.tree(part.desc, flat))!r}',
+                        hcase)
+        else:
+          pool[i].append((flat, d, guarded(lambda d=d: d.spec) is not None))
+      del pool[i][:-4]
+  return checked
+
+
+def _take(it, n):
+  """The first n items of an iterator, then None if it ended there."""
+  out = list(itertools.islice(it, n))
+  if len(out) < n:
+    out.append(None)
+  return out
+
+
+# --------------------------------------------------------------------------
 
 def space_for(ctx):
   """A random description with at most `max_points` decision points."""
@@ -1178,6 +1431,20 @@ def run_case(ctx, i):
     pop = list(population) + [rebuild(sp, rng.choice(members))]
     chains.append(run_chain(ctx, sp, pop, case))
   run_evolution(ctx, sp, case)
+  # -- histories of requests on one long-lived spec object and on its parts
+  # (own random stream: the cases above stay what they were)
+  saved = ctx.rng
+  ctx.rng = ctx.case_rng(ctx.index, 'histories')
+  try:
+    for _ in range(int(ctx.params.get('histories', 1))):
+      # the spec every source above was drawn from, or a build that has not
+      # handed out a DNA yet
+      if ctx.rng.random() < 0.5:
+        handed += run_history(ctx, sp, case, used_before=True)
+      else:
+        handed += run_history(ctx, sp2, case, used_before=False)
+  finally:
+    ctx.rng = saved
   interesting = any(
       e['t'] == 'choice' and (e['k'] > 1 or any(cd['elems'] for cd in e['cands']))
       for e in desc['elems'])
